@@ -101,7 +101,7 @@ def subshapes(s):
 
 
 def domain(ctx):
-    n = 8 if ctx.quick else 10
+    n = 9 if ctx.quick else 10
     rng = random.Random(ctx.seed * 29 + 3)
     cases = []
     for s in shapes.shapes_upto(n):
